@@ -446,10 +446,11 @@ const (
 	opOther
 	opDelete
 	opRestart
+	opForgeLost // the real forge step; the block handed on is never applied (AddInternal drops it when the process queue is full, or it is still queued at the next tick)
 	numOps
 )
 
-var opName = []string{"forge", "other-validator-block", "delete-tip", "restart-generator"}
+var opName = []string{"forge", "other-validator-block", "delete-tip", "restart-generator", "forge-block-not-applied"}
 
 func names(h []int) []string {
 	o := []string{}
@@ -462,6 +463,7 @@ func names(h []int) []string {
 type hist struct {
 	signed  []ref.CHeader
 	largest uint32
+	moved   []bool // moved[i]: a block was deleted (a chain switch in the model) after header i was signed
 }
 
 var historyOnHand func(b *blockchain.Block)
@@ -477,8 +479,10 @@ func runHistory(r *vlib.Run, ops []int, gfs vfs.FS, crash *crashfs.Session) (str
 	h := &hist{}
 	for i, op := range ops {
 		switch op {
-		case opForge:
+		case opForge, opForgeLost:
 			var b *blockchain.Block
+			mhpNow, _, _ := w.n.BFTHeights()
+			would := ref.CHeader{Gen: "g", Height: w.n.Tip().Header.Height + 1, MHG: h.largest, MHP: mhpNow}
 			if p := vlib.Catch(func() { b = w.forge() }); p != "" {
 				return "forge-panics", p
 			}
@@ -486,6 +490,11 @@ func runHistory(r *vlib.Run, ops []int, gfs vfs.FS, crash *crashfs.Session) (str
 				return "", "" // the process died inside this forge: the caller restarts
 			}
 			if b == nil {
+				// declining to sign is right exactly when the header would contradict the last one handed on
+				if len(h.signed) > 0 && ref.ContradictingOrderFree(h.signed[len(h.signed)-1], would) {
+					r.Add("forge_declined_contradicting_header", 1)
+					continue
+				}
 				return "forge-produces-nothing", fmt.Sprintf("step %d", i)
 			}
 			nh := ref.CHeader{Gen: "g", Height: b.Header.Height, MHG: b.Header.MaxHeightGenerated, MHP: b.Header.MaxHeightPrevoted}
@@ -498,13 +507,24 @@ func runHistory(r *vlib.Run, ops []int, gfs vfs.FS, crash *crashfs.Session) (str
 					return "generator-contradicts-itself", fmt.Sprintf("header (h%d mhg%d mhp%d) contradicts its earlier header (h%d mhg%d mhp%d) although it moved to a chain with larger maxHeightPrevoted", nh.Height, nh.MHG, nh.MHP, old.Height, old.MHG, old.MHP)
 				}
 			}
+			for oi, old := range h.signed {
+				// no block was deleted since the old header was signed (the chain only grew, or stood still because the block
+				// handed on was not applied): nothing excuses a contradiction
+				if !h.moved[oi] && ref.ContradictingOrderFree(old, nh) {
+					return "generator-contradicts-itself-without-chain-switch", fmt.Sprintf("header (h%d mhg%d mhp%d) contradicts its earlier header (h%d mhg%d mhp%d) and no block was deleted in between", nh.Height, nh.MHG, nh.MHP, old.Height, old.MHG, old.MHP)
+				}
+			}
 			h.signed = append(h.signed, nh)
+			h.moved = append(h.moved, false)
 			if b.Header.Height > h.largest {
 				h.largest = b.Header.Height
 			}
 			info, ok := w.gen.VerifGeneratorInfo(addr)
 			if !ok || info.Height != b.Header.Height || info.MaxHeightGenerated != b.Header.MaxHeightGenerated || info.MaxHeightPrevoted != b.Header.MaxHeightPrevoted {
 				return "persisted-info-not-last-header", fmt.Sprintf("generator DB holds %+v after handing on header h%d mhg%d mhp%d", info, b.Header.Height, b.Header.MaxHeightGenerated, b.Header.MaxHeightPrevoted)
+			}
+			if op == opForgeLost {
+				continue
 			}
 			err := b.Validate()
 			if err == nil {
@@ -528,6 +548,9 @@ func runHistory(r *vlib.Run, ops []int, gfs vfs.FS, crash *crashfs.Session) (str
 			}
 			if err := w.n.Exec.VerifDeleteBlock(w.n.Tip(), false); err != nil {
 				return "", "skip"
+			}
+			for oi := range h.moved {
+				h.moved[oi] = true
 			}
 		case opRestart:
 			if err := w.startGenerator(); err != nil {
